@@ -22,6 +22,32 @@ int idgen_helper(int argc, char **argv) {
     if (argc < 3) return 2;
     std::string path = argv[0]; std::string mode = argv[1]; int n = atoi(argv[2]); std::string tagname = argc > 3 ? argv[3] : "x"; int focus = argc > 4 ? atoi(argv[4]) : -1;   // focus: every second creation is of this kind, so each kind in turn dominates a population
     try {
+        if (mode == "forkers") {
+            // workers forked WITHOUT exec from a parent that has (warm) or has not yet drawn an id: each worker is "another process"
+            int P = argc > 5 ? atoi(argv[5]) : 3; bool warm = argc > 6 && atoi(argv[6]) != 0;
+            if (warm) { File f0 = File::open(path, FileMode::Overwrite); printf("file\t%s\n", f0.id().c_str()); printf("block\t%s\n", f0.createBlock("warm", "t").id().c_str()); f0.close(); }
+            fflush(nullptr); std::vector<pid_t> kids;
+            for (int w = 0; w < P; w++) {
+                pid_t pid = fork();
+                if (pid == 0) {
+                    if (!freopen((path + ".out" + std::to_string(w)).c_str(), "w", stdout)) _exit(4);
+                    int rc = 0;
+                    try {
+                        File f = File::open(path + ".w" + std::to_string(w), FileMode::Overwrite); printf("file\t%s\n", f.id().c_str());
+                        Block b = f.createBlock("b", "t"); printf("block\t%s\n", b.id().c_str()); Section s = f.createSection("s", "t"); printf("section\t%s\n", s.id().c_str());
+                        for (int i = 0; i < n; i++) { std::string k = "e" + std::to_string(i);
+                            switch (i % 4) { case 0: printf("data_array\t%s\n", b.createDataArray(k, "t", DataType::Double, NDSize{2}).id().c_str()); break; case 1: printf("tag\t%s\n", b.createTag(k, "t", {1.0}).id().c_str()); break;
+                                             case 2: printf("property\t%s\n", s.createProperty(k, Variant(1.0)).id().c_str()); break; default: printf("source\t%s\n", b.createSource(k, "t").id().c_str()); } }
+                        f.close();
+                    } catch (std::exception &e) { fprintf(stderr, "forked worker: %s\n", e.what()); rc = 3; }
+                    fflush(nullptr); _exit(rc);
+                }
+                kids.push_back(pid);
+            }
+            int bad = 0; for (pid_t k : kids) { int st; waitpid(k, &st, 0); if (!WIFEXITED(st) || WEXITSTATUS(st) != 0) bad++; }
+            for (int w = 0; w < P; w++) { FILE *fi = fopen((path + ".out" + std::to_string(w)).c_str(), "r"); if (!fi) { bad++; continue; } char line[512]; while (fgets(line, sizeof line, fi)) { std::string l(line); size_t t = l.find('\t'); if (t != std::string::npos) printf("worker%d-%s", w, l.c_str()); } fclose(fi); }
+            return bad ? 3 : 0;
+        }
         File f = File::open(path, mode == "append" ? FileMode::ReadWrite : FileMode::Overwrite);
         if (mode != "append") printf("file\t%s\n", f.id().c_str());
         auto body = [&](const std::string &pfx, int count) {
@@ -79,7 +105,7 @@ void multi_process(Ctx &c, int variant) {
     Rng &r = c.rng; static const int Ps[] = {2, 4, 8, 16}; int P = r.pick(Ps); int n = 30 + (int)r.u(30);
     long t0 = 1700000000 + (long)r.u(100000000);
     std::string focus = str((int)r.u(10) - 1);
-    std::string scen = variant == 0 ? "same-second-pinned" : variant == 1 ? "same-second-real-clock" : variant == 2 ? "staggered-seconds" : variant == 3 ? "sequential-sessions-one-file" : "threads-in-one-process";
+    std::string scen = variant == 0 ? "same-second-pinned" : variant == 1 ? "same-second-real-clock" : variant == 2 ? "staggered-seconds" : variant == 3 ? "sequential-sessions-one-file" : variant == 4 ? "threads-in-one-process" : variant == 5 ? "forked-workers-after-first-id" : "forked-workers-before-first-id";
     c.fp(scen + str(P) + "f" + focus); c.count("scenario:" + scen); c.count("focus-kind:" + focus);
     std::vector<std::pair<std::string, std::string>> ids;
     auto parse = [&](const std::string &out, const std::string &who) { size_t a = 0; while (a < out.size()) { size_t b = out.find('\n', a); if (b == std::string::npos) b = out.size(); std::string l = out.substr(a, b - a); size_t t = l.find('\t'); if (t != std::string::npos) ids.emplace_back(l.substr(t + 1), who + ":" + l.substr(0, t)); a = b + 1; } };
@@ -98,6 +124,10 @@ void multi_process(Ctx &c, int variant) {
         // and the ids stored in the file itself
         File f = File::open(c.path("shared.nix"), FileMode::ReadOnly); Observer ob; ONode t = ob.file(f); f.close(); std::vector<std::pair<std::string, std::string>> infile; ids_of(t, infile); check_population(c, infile, scen + "/in-file");
         c.count("sessions", P);
+    } else if (variant >= 5) {
+        // processes created by fork() without exec (worker pools): they must not continue the parent's id sequence in lockstep
+        c.op("forked workers | P=" + str(P) + " warm=" + str(variant == 5)); Proc pr = spawn({c.path("fork.nix"), "forkers", str(n / 3 + 3), "f", focus, str(P), variant == 5 ? "1" : "0"}, r.chance(0.5) ? t0 : 0, -1);
+        bool ok = collect(pr); c.check(ok, "C12/harness/helper-failed", "fork helper failed"); parse(pr.out, "forked"); c.count("processes", P);
     } else {
         c.op("threads in one process"); Proc pr = spawn({c.path("thr.nix"), "threads", str(n), "t", focus}, 0, -1); bool ok = collect(pr); c.check(ok, "C12/harness/helper-failed", "thread helper failed"); parse(pr.out, "threads");
     }
@@ -136,12 +166,12 @@ void stability(Ctx &c) {
 }
 
 void run_case(Ctx &c) {
-    int k = (int)(c.index % 8);
-    if (k <= 4) multi_process(c, k); else stability(c);
+    int k = (int)(c.index % 10);
+    if (k <= 6) multi_process(c, k); else stability(c);
     c.nontrivial = c.checks > 3;
 }
-long ncases(const std::string &tier) { return tier == "quick" ? 64 : 1600; }
-std::vector<std::string> witnesses() { return {"d4-same-second"}; }
-void run_witness(Ctx &c, const std::string &name) { if (name == "d4-same-second") { multi_process(c, 0); multi_process(c, 3); } c.nontrivial = true; }
+long ncases(const std::string &tier) { return tier == "quick" ? 80 : 2000; }
+std::vector<std::string> witnesses() { return {"d4-same-second", "d34-forked-workers"}; }
+void run_witness(Ctx &c, const std::string &name) { if (name == "d4-same-second") { multi_process(c, 0); multi_process(c, 3); } if (name == "d34-forked-workers") { multi_process(c, 5); multi_process(c, 6); } c.nontrivial = true; }
 Reg reg({"C12", ncases, run_case, witnesses, run_witness, 180});
 }  // namespace
